@@ -1044,8 +1044,8 @@ func hasAnyPrefixes(s []byte, listOfPrefixes [][]byte) bool {
 }
 
 func containsPrefix(table *table.Table, prefix []byte) bool {
-	smallValue := table.Smallest()
-	largeValue := table.Biggest()
+	smallValue := y.ParseKey(table.Smallest())
+	largeValue := y.ParseKey(table.Biggest())
 	if bytes.HasPrefix(smallValue, prefix) {
 		return true
 	}
@@ -1058,7 +1058,7 @@ func containsPrefix(table *table.Table, prefix []byte) bool {
 		// In table iterator's Seek, we assume that key has version in last 8 bytes. We set
 		// version=0 (ts=math.MaxUint64), so that we don't skip the key prefixed with prefix.
 		ti.Seek(y.KeyWithTs(prefix, math.MaxUint64))
-		return bytes.HasPrefix(ti.Key(), prefix)
+		return ti.Valid() && bytes.HasPrefix(y.ParseKey(ti.Key()), prefix)
 	}
 
 	if bytes.Compare(prefix, smallValue) > 0 &&
